@@ -12,6 +12,10 @@ Init == l = 1 /\ bad = <<>> /\ ops = {}
 IsEvent(e) == l <= Len(Events) /\ Events[l].e = e /\ l' = l + 1
 Flag(ok, rec) == bad' = IF ok \/ Len(bad) >= 400 THEN bad ELSE Append(bad, rec)
 P3(p) == PlanarEmbed(p)
+KOf(b) == IF b[1] = 0 THEN 3 ELSE b[1]
+ShapePrefixes == {"pv", "v", "sd", "d"}
+ScaleOps == {p \o s : p \in ShapePrefixes, s \in {"_scale", "_scale_left", "_scale_int", "_muleq"}}
+UnscaleOps == {p \o s : p \in ShapePrefixes, s \in {"_div", "_div_int", "_diveq", "_diveq_int"}}
 Expected(op, a, b) ==
   CASE op = "pv_magsq"   -> <<PDot(a, a)>>
     [] op = "pv_embed"   -> PlanarEmbed(a)
@@ -51,7 +55,10 @@ Expected(op, a, b) ==
     [] op = "pdir_dyadic_pv"   -> PDyadic(b, a)
     [] op = "pdir_dyadic_pdir" -> PDyadic(b, <<b[2], b[1]>>)
     [] op = "sd_transpose"     -> a                                        \* a symmetric dyad is its own transpose
-AllOps == {"pv_magsq", "pv_embed", "v_project", "pv_dot", "pv_cross", "pv_dyadic", "pv_dot_pdir", "pv_cross_pdir", "pv_dyadic_pdir",
+    \* scaling: b is the number (3 when the grid gives 0); the division forms divide k * a by k
+    [] op \in ScaleOps -> [i \in 1..Len(a) |-> a[i] * KOf(b)]
+    [] op \in UnscaleOps -> a
+AllOps ==  ScaleOps \cup UnscaleOps \cup {"pv_magsq", "pv_embed", "v_project", "pv_dot", "pv_cross", "pv_dyadic", "pv_dot_pdir", "pv_cross_pdir", "pv_dyadic_pdir",
            "v_from_magnitude_direction", "pv_from_magnitude_direction", "v_magsq", "v_dot", "v_cross", "v_dyadic", "v_dot_dir", "v_cross_dir", "v_dyadic_dir", "sd_trace", "sd_det", "sd_cof",
            "sd_adj", "sd_embed", "d_trace", "d_det", "d_transpose", "d_cof", "d_adj", "sd_mul_pv", "sd_mul_v", "sd_mul_sd", "sd_mul_d",
            "d_mul_pv", "d_mul_v", "d_mul_sd", "d_mul_d", "sd_mul_dir", "d_mul_dir", "sd_mul_pdir", "d_mul_pdir",
